@@ -105,7 +105,7 @@ Proof.
   intros p K [K0 KS] s w HR.
   set (cl := N.of_nat (List.length (pcode p))) in *.
   assert (INV : ip s = cl \/ exists k, K (ip s) k /\ forall a, a < k -> In a w).
-  { induction HR as [|s w s' HR IH Hstep].
+  { induction HR as [|s w s' HR IH Hstep|s w s' HR IH HP].
     - destruct (pcode p) as [|b t] eqn:EC.
       + left. reflexivity.
       + right. exists 0. split; [apply K0; discriminate|intros a Ha; lia].
@@ -133,7 +133,8 @@ Proof.
         unfold kout in Hle. destruct o; try (apply HW; lia).
         destruct (arg0 i =? k) eqn:EA.
         * apply N.eqb_eq in EA. destruct (N.eq_dec a k) as [->|NE]; [left; exact EA|right; apply HW; lia].
-        * right. apply HW. lia. }
+        * right. apply HW. lia.
+    - destruct HP as (Hip & _). rewrite Hip. exact IH. }
   intros i Hf Hlt HO. destruct INV as [E|(k & HK & HW)]; [lia|].
   destruct (KS _ _ HK Hlt) as (i' & rest & o & HD1 & Ho & HG & _).
   unfold fetch in Hf. rewrite HD1 in Hf. simpl in Hf. inversion Hf; subst i'.
@@ -802,6 +803,27 @@ Proof.
   rewrite HS, HK'. split; [lia|]. split; [reflexivity|]. exists Ks. exact S.
 Qed.
 
+Lemma p_store brk l i e st st1 st2 st3 st' seg_e seg_l seg_i :
+  efrag e = true -> compile_expr true e st = COk st1 -> ccode st1 = ccode st ++ seg_e ->
+  efrag l = true -> compile_expr true l st1 = COk st2 -> ccode st2 = ccode st1 ++ seg_l ->
+  efrag i = true -> compile_expr true i st2 = COk st3 -> ccode st3 = ccode st2 ++ seg_i ->
+  csym st' = csym st ->
+  P_LY brk (SAssign (EIndex l i) e) st st' [] (seg_e ++ seg_l ++ seg_i ++ [N_of_opc SetIndex]).
+Proof.
+  intros F1 C1 E1 F2 C2 E2 F3 C3 E3 HS T0 _.
+  destruct (expr_step _ _ _ _ F1 C1 E1) as [L1 I1]. destruct (expr_step _ _ _ _ F2 C2 E2) as [L2 I2].
+  destruct (expr_step _ _ _ _ F3 C3 E3) as [L3 I3].
+  destruct (efrag_consts _ _ _ F1 C1) as [_ A1]. destruct (efrag_consts _ _ _ F2 C2) as [_ A2]. destruct (efrag_consts _ _ _ F3 C3) as [_ A3].
+  apply (pseg_seq st st1 st' seg_e _ _ (pseg_expr _ _ _ _ _ F1 C1 E1)); [|exact L1|exact I1].
+  apply (pseg_seq st1 st2 st' seg_l _ _ (pseg_expr _ _ _ _ _ F2 C2 E2)); [|exact L2|exact I2].
+  apply (pseg_seq st2 st3 st' seg_i _ _ (pseg_expr _ _ _ _ _ F3 C3 E3)); [|exact L3|exact I3].
+  intros code pre post T kb HCode HL HI HK.
+  assert (EQ : kof (csym st') = kof (csym st3)) by (rewrite HS, A3, A2, A1; reflexivity).
+  rewrite EQ. split; [lia|]. split; [discriminate|].
+  exists (KPT (N.of_nat (List.length pre)) (kof (csym st3))).
+  apply (seg_raw1 code pre post SetIndex); [exact HCode|reflexivity|lia].
+Qed.
+
 Theorem p_all :
   (forall brk s st st' bs seg, LY brk s st st' bs seg -> P_LY brk s st st' bs seg) /\
   (forall brk l st st' bs seg, LYL brk l st st' bs seg -> P_LYL brk l st st' bs seg) /\
@@ -817,6 +839,7 @@ Proof.
   - (* forstep *) intros. eapply p_forstep; eauto.
   - (* foriter *) intros. eapply p_foriter; eauto.
   - (* if *) intros. eapply p_if; eauto.
+  - (* store *) intros. eapply p_store; eauto.
   - (* nil *) intros brk st T0 _. apply p_lyl_nil.
   - (* cons *) intros brk s t st st1 st2 bs1 bs2 seg1 seg2 L1 P1 HLen L2 P2 T0 E.
     apply (pseg_seq st st1 st2 seg1 seg2 _ (P1 T0 E) (P2 T0 E) HLen).
@@ -831,12 +854,12 @@ Qed.
 (* ====================================================================== *)
 (* Part 4: whole programs                                                   *)
 (* ====================================================================== *)
-Theorem compile_linitk : forall (p : slist) (st : cstate),
-  lpfrag p = true -> compile p = COk st -> exists K, LINITK (ccode st) K.
+Theorem compile_linitk_w : forall (p : slist) (st : cstate),
+  cfrag_slist p = true -> nb_slist p = true -> compile p = COk st -> exists K, LINITK (ccode st) K.
 Proof.
-  intros p st HF HC. unfold lpfrag in HF. apply andb_true_iff in HF. destruct HF as [HF HNB].
+  intros p st HF HNB HC.
   unfold compile, compile_program in HC. rewrite compile_slist_body in HC.
-  destruct (proj1 (proj2 ly_all) p HF cinit st HC) as (bs & seg & L0 & C & B).
+  destruct (proj1 (proj2 ly_all_w) p HF cinit st HC) as (bs & seg & L0 & C & B).
   pose proof (proj1 (proj2 ly_no_breaks) _ _ _ _ _ _ L0 HNB) as ->.
   destruct (proj1 (proj2 (ly_brk_patch 0%Z)) _ _ _ _ _ _ L0 eq_refl st st (ccode cinit) []) as (seg' & C' & _ & _ & _ & _ & L);
     [rewrite app_nil_r; exact C|reflexivity|reflexivity|].
@@ -859,26 +882,26 @@ Qed.
 (* every program of the fragment: in every run of the VM model on the compiled
    code, an OpGetLocal about to execute reads a slot that an executed OpSetLocal
    has written *)
-Theorem compile_linit_safe : forall (p : slist) (st : cstate),
-  lpfrag p = true -> compile p = COk st ->
+Theorem compile_linit_safe_w : forall (p : slist) (st : cstate),
+  cfrag_slist p = true -> nb_slist p = true -> compile p = COk st ->
   let prog := program_of (bytecode_of st) in
   forall s w, reach_w prog s w ->
   forall i, fetch prog s = Some i -> ip s < N.of_nat (List.length (pcode prog)) ->
             opc_of_N (iop i) = Some GetLocal -> In (arg0 i) w.
 Proof.
-  intros p st HF HC prog. destruct (compile_linitk p st HF HC) as (K & HK).
+  intros p st HF HN HC prog. destruct (compile_linitk_w p st HF HN HC) as (K & HK).
   apply (linitk_safe prog K). unfold prog, program_of, bytecode_of. cbn [pcode out_code]. exact HK.
 Qed.
 
-(* … for every program the compiler accepts that has no element store (plain;
-   CompileCoverProofs.compile_covered) *)
-Theorem compile_linit_safe_plain : forall (p : slist) (st : cstate),
-  compile p = COk st -> plain_slist p = true -> nb_slist p = true ->
+(* EVERY program the compiler accepts (element stores included): the side
+   conditions are the two syntactic, parser-guaranteed ones of compile_wf_all *)
+Theorem compile_linit_safe_all : forall (p : slist) (st : cstate),
+  compile p = COk st -> wplain_slist p = true -> nb_slist p = true ->
   let prog := program_of (bytecode_of st) in
   forall s w, reach_w prog s w ->
   forall i, fetch prog s = Some i -> ip s < N.of_nat (List.length (pcode prog)) ->
             opc_of_N (iop i) = Some GetLocal -> In (arg0 i) w.
 Proof.
-  intros p st HC HP HN. apply (compile_linit_safe p st); [|exact HC].
-  unfold lpfrag. rewrite (compile_covered p st HC HP), HN. reflexivity.
+  intros p st HC HP HN. apply (compile_linit_safe_w p st); [|exact HN|exact HC].
+  rewrite <- pfrag2_cfrag. apply (compile_covered_wf p st HC HP).
 Qed.
